@@ -48,6 +48,18 @@ CHECKS['C10'] = ('hypothesis', 'exploration',
     'self-identity promises, read-only never becomes writable, cached jpg only on read-only pixels and consistent with them, nothing modified behind the model.',
     'numpy shares_memory/flags trusted; GRAY luminance compared with +-1.', '5 C10')
 
+CHECKS['C15'] = ('hypothesis', 'exploration',
+    'property-based testing (Hypothesis): secret-absent predicate over captured logs, frame metadata and lineage events; masked-URI differential for single URIs',
+    'Generated credentials (distinctive user token and two password tokens around RFC special characters) placed at generated positions of the configuration of every built-in '
+    'filter (text, comma list, list, tuple, dict, nested, normalised records; valid configs and configs whose normalisation fails); the filter is constructed, initialised with the '
+    'real OpenFilterLineage over a capturing client, VideoIn is run over a fake VideoGear and VideoWriter over a fake WriteGear; no token may occur in any log record, meta.src or lineage event.',
+    'third-party libraries that could print a URI themselves are replaced by fakes; passwords obey RFC 3986 (no raw @ / whitespace).', '5 C15')
+CHECKS['C11'] = ('hypothesis', 'exploration',
+    'property-based testing (Hypothesis) with constructive grammars: idempotence law, text==struct metamorphic relation, parse(render(x))==x round trip',
+    'Per built-in filter class a grammar derived from its docstring yields (text form, structured form) pairs; N(N(c))==N(c) for both, N(text)==N(struct), and '
+    'parse_topics/parse_options invert a renderer written from the docstrings, with whitespace variation, !no-x, JSON values and ! inside passwords.',
+    'every valid configuration = every configuration the documented grammar can build; undocumented accepted forms are not generated.', '5 C11')
+
 PENDING = {}
 
 
